@@ -162,3 +162,12 @@ func VerifC11Descriptor() {
 	}
 	verifCover("C11.descriptor.end")
 }
+
+// frames longer than 64 KiB: fragment offsets do not fit 16 bits
+func VerifC11LongFrame() {
+	n := verifPick("len", []int{65537, 80010})
+	mtu := uint16(verifPick("mtu", []int{65535, 40000, 30011}))
+	p := &VP8Payloader{EnablePictureID: verifCase("pictureid", 0, 1) == 1}
+	verifC11Frame("C11.long", p, mtu, 0, verifLongFrame(n, false))
+	verifCover("C11.long.end")
+}
